@@ -39,8 +39,8 @@ def comm_for(rng, mode, price, qty):
     return abs(price * qty) * rng.choice([0.0005, 0.001, 0.01, 0.07])
 
 
-def ladder_case(rng, pattern, asset='EQ:AAA'):
-    """Concrete ops for one abstract pattern."""
+def ladder_case(rng, pattern, asset='EQ:AAA', fractional=False):
+    """Concrete ops for one abstract pattern. fractional: real-valued quantities (dyadic, so sums stay exact)."""
     t = bw.ts(rng.choice(bw.STARTS))
     start = t
     ops = []
@@ -52,14 +52,22 @@ def ladder_case(rng, pattern, asset='EQ:AAA'):
         sgn = 1 if side == 'buy' else -1
         opposing = net != 0 and (net > 0) != (sgn > 0)
         base = abs(net) if net else rng.randint(2, 5000)
+        ib = int(base)
         if size == 'equal':
             q = base
         elif size == 'smaller':
-            q = rng.randint(1, base - 1) if base > 1 else 1
+            q = rng.randint(1, ib - 1) if ib > 1 else 1
         else:
-            q = base + rng.randint(1, max(2, base * 2))
+            q = ib + rng.randint(1, max(2, ib * 2))
         if not opposing and rng.random() < 0.5:
             q = max(1, int(10 ** rng.uniform(0, 5)))
+        if fractional and size != 'equal' and rng.random() < 0.6:
+            q = q + rng.choice([0.25, 0.5, 0.75, 0.125])
+        if fractional and rng.random() < 0.15:
+            q = rng.choice([0.5, 0.25, 0.75])          # a sub-unit fill (real-valued quantities are in C03's quantifier)
+        elif not fractional:
+            while 0 < abs(net + sgn * q) < 1:
+                q = q + 1
         qty = sgn * q
         price = bw.rand_price(rng)
         t = t + pd.Timedelta(rng.choice([pd.Timedelta(0), pd.Timedelta(microseconds=1), pd.Timedelta(minutes=13),
@@ -177,7 +185,7 @@ def shard_ladders(spec, acc, prop):
             break
         pat = pattern_at(idx, k)
         for d in range(spec['draws']):
-            case = ladder_case(rng, pat)
+            case = ladder_case(rng, pat, fractional=(prop == 'C03' and d == spec['draws'] - 1))
             sc = bw.run_case(case, acc, prop)
             acc.evaluations += 1
             acc.count('ops_executed', len(case['ops']))
